@@ -51,6 +51,11 @@ def replay_schedule(rec, seed):
                 pass
     if batch:
         ex.set_cells([xc.mk_cell(pos[c], v, rng.randint(0, 2)) for c, v in batch])
+        # calls that leave the overrides as they are: an empty batch, the same batch once more
+        if seed % 3 == 0:
+            ex.set_cells([])
+        if seed % 5 == 0:
+            ex.set_cells([xc.mk_cell(pos[c], v, rng.randint(0, 2)) for c, v in batch])
     sizes0 = xc.q_sizes(ex)
     if sizes0 != rec['sizes']:
         return False, f"sizes {sizes0} differ from used range (+) overrides {rec['sizes']}"
